@@ -14,6 +14,10 @@ namespace Hls.Playlist.MP
 /-- durations above this lose nanosecond accuracy in `float64` seconds (≈ 11.5 days) -/
 def durMax : Int := 1000000000000000
 
+/-- the durations whose text form is canonical: magnitude ≤ 10^15 ns, and a negative one is not
+rounded to `-0.00000` -/
+def DurDom (d : Int) : Prop := d.natAbs ≤ durMax.toNat ∧ (d < 0 → 5000 < d.natAbs)
+
 /-- the text `FormatFloat(·,'f',5,64)` produces for sign `neg` and `q` units of 10 µs -/
 def decText (neg : Bool) (q : Nat) : Str :=
   (if neg then ['-'] else []) ++ formatNat (q / 100000) ++ '.' :: padNat 5 (q % 100000)
@@ -33,11 +37,12 @@ def timeChar (c : Char) : Bool :=
 structure Codec.Valid (C : Codec) : Prop where
   /-- `FormatFloat(d.Seconds(),'f',5,64)`: the sign and the nearest multiple of 10 µs
   (a decimal tie may be rounded either way) -/
-  fmt_dur : ∀ d : Int, d.natAbs ≤ durMax.toNat →
+  fmt_dur : ∀ d : Int, DurDom d →
     ∃ q : Nat, C.fmtDur d = decText (decide (d < 0)) q ∧ q * 10000 ≤ d.natAbs + 5000 ∧ d.natAbs ≤ q * 10000 + 5000
-  /-- `time.Duration(ParseFloat(text) * 1e9)`: exact, or one nanosecond short (truncation) -/
-  parse_dur : ∀ (neg : Bool) (q : Nat), q ≤ 100000000000 →
-    ∃ n : Nat, C.parseDur (decText neg q) = some (if neg then -(n : Int) else n) ∧ n ≤ q * 10000 ∧ q * 10000 ≤ n + 1
+  /-- `time.Duration(ParseFloat(text) * 1e9)`: within one nanosecond of the exact value (the real
+  code is exact or one short; the envelope proved for the soft-float model is two-sided) -/
+  parse_dur : ∀ (neg : Bool) (q : Nat), q ≤ 100000000000 → (neg = true → 0 < q) →
+    ∃ n : Nat, C.parseDur (decText neg q) = some (if neg then -(n : Int) else n) ∧ n ≤ q * 10000 + 1 ∧ q * 10000 ≤ n + 1
   /-- RFC 3339 text of a well-formed time parses back to the same instant and zone at 1 ms -/
   time_rt : ∀ t, wfTime t = true → C.parseTime (C.fmtTime t) = some (truncMs t)
   time_trunc : ∀ t, wfTime t = true → C.fmtTime (truncMs t) = C.fmtTime t
@@ -82,11 +87,11 @@ def quotedOK (s : Str) : Bool := s.all fun c => c != '"' && c != '\n' && c != '\
 def lineOK (s : Str) : Bool := s.all fun c => c != '\n' && c != '\r'
 
 /-- a duration that survives the 5-decimal text as a non-zero value -/
-def posDur (d : Int) : Bool := decide (5000 < d) && decide (d < durMax)
+def posDur (d : Int) : Bool := decide (5000 < d) && decide (d + 5000 < durMax)
 /-- a non-negative duration -/
-def nnDur (d : Int) : Bool := decide (0 ≤ d) && decide (d < durMax)
+def nnDur (d : Int) : Bool := decide (0 ≤ d) && decide (d + 5000 < durMax)
 /-- a signed non-zero duration (EXT-X-START) -/
-def signedDur (d : Int) : Bool := decide (5000 < d.natAbs) && decide (d.natAbs < durMax.toNat)
+def signedDur (d : Int) : Bool := decide (5000 < d.natAbs) && decide (d.natAbs + 5000 < durMax.toNat)
 
 /-- `n[@o]`: an offset needs a length -/
 def brOK (len start : Option Nat) : Bool :=
